@@ -104,17 +104,12 @@ Theorem C20_final_coef_is_last : forall c fuel, ok_cfg c -> max_iter c + 1 <= fu
 Proof. exact final_coef_is_last. Qed.
 Print Assumptions C20_final_coef_is_last.
 
-(* constructor forwarding (DESIGN S13): false for LinearGAM, true for every other class *)
-Theorem C20_callbacks_forwarded_refuted : exists k, In k Gen_ctors /\ c_class k = "LinearGAM" /\
-  smem "callbacks" (c_params k) = true /\ ctor_reaches "callbacks" k = false.
-Proof. exact callbacks_forwarded_refuted. Qed.
-Print Assumptions C20_callbacks_forwarded_refuted.
-
-(* PARTIAL: missing LinearGAM, whose constructor accepts `callbacks` and drops it *)
-Theorem C20_callbacks_forwarded_partial : forall k, In k Gen_ctors -> c_class k <> "LinearGAM" ->
-  ctor_reaches "callbacks" k = true.
-Proof. exact callbacks_forwarded_partial. Qed.
-Print Assumptions C20_callbacks_forwarded_partial.
+(* constructor forwarding: every model class accepts `callbacks` and hands it to the base constructor
+   (finding S13, LinearGAM dropping it, was repaired in /repo; the statement is now unguarded) *)
+Theorem C20_callbacks_forwarded : forall k, In k Gen_ctors ->
+  smem "callbacks" (c_params k) = true /\ ctor_reaches "callbacks" k = true.
+Proof. exact callbacks_forwarded. Qed.
+Print Assumptions C20_callbacks_forwarded.
 
 Theorem C20_loop_params_forwarded : forall k, In k Gen_ctors ->
   ctor_reaches "max_iter" k = true /\ ctor_reaches "tol" k = true.
